@@ -201,6 +201,12 @@ def run(P, R, tier):
                 else:
                     sc = cone(du, first, du.stmt_of(n_), interproc=False)
                     eq = any(isinstance(x, ast.Compare) and isinstance(x.ops[0], ast.Eq) for x in sc.nodes)
+                    if not eq:
+                        from ..engines import group as _grp
+                        g_ = _grp.sort_split(du, first, du.stmt_of(n_), [f.value_params[1]])
+                        if g_.kind is not None:
+                            R.check(g_.ok, "IDX.select", f.key, f"{src(sub)} in the scatter accumulation", g_.why, g_.why, sub.lineno)
+                            continue
                     R.check(eq, "IDX.select", f.key, f"{src(sub)} in the scatter accumulation", "selected by label equality", "class members are not selected by `y == label`", sub.lineno)
     if found == 0 and nsel == 0:
         R.error("WCCN.fit: neither a per-class centred block nor a scatter accumulation over X was recognised")
@@ -236,3 +242,4 @@ def run(P, R, tier):
 
 
 EXPLANATION += " Also: (AFFINE) the fitted divisor is 1 and WCCN's offset 0, Whitening.fit stores the training mean; (POL.wccn-scale) the scatter is scaled by 1 / K and no other literal; (DTYPE.raw)."
+EXPLANATION += ' (IDX.select, generalised by GROUP) class members selected by label equality or by a sort-and-split grouping of the labels (G1-G4).'
